@@ -9,7 +9,7 @@ CLAIMS = {
           "every sink write is dominated by `finalized=true` behind the finalized test (nothing before finish, nothing after, once); frame-writing "
           "entries succeed only on the flag-false edge; the byte counter is updated only beside the write with len(buf); MuxerStats fields are "
           "sourced from the right queues/counter and only on the Ok edge. Static rules give the for-all-histories part tests cannot; numeric tolerance of duration is not decided. R6: the end time of a queue whose presentation times are not monotone in queue order ranges over every sample; each queue is paired with the last-delta field its own writer maintains."
-          " R5 also: the sample queues the statistics are read from are append-only in the whole library (store inventory). R5 also: nothing but the pure end-time function of the queues enters duration_secs. R7: a refused write leaves no trace in the state the statistics are computed from (C05.R1 instances).",
+          " R5 also: the sample queues the statistics are read from are append-only in the whole library (store inventory). R5 also: nothing but the pure end-time function of the queues enters duration_secs. R7: a refused write leaves no trace in the queues / last-delta fields the statistics are computed from (the C05.R1 instances with such stores).",
   "note": "Trusted: rustc MIR, std Write::write_all contract, externals classification. Not decided: +-1 tick tolerance of duration_secs; "
           "R6 (end time = last sample's pts+delta is the maximum only when pts is monotone) is recorded as a known finding when it applies."},
  "C13": {
@@ -18,7 +18,7 @@ CLAIMS = {
           "every Result of a sink write (and of each writer-tree call) is consumed by `?` or returned, and the Break edge never re-enters the writer tree, so the buffers offered to the sink form one fixed "
           "sequence that stops at the first failure (prefix property, error iff a write failed); the finalized flag is set before the first write and never cleared (nothing is written afterwards). "
           "Tests can only sample failure points; the rule covers all of them structurally."
-          " The sink call itself runs once per helper invocation (not on a CFG cycle) and its Result is returned / `?`-propagated unseen (no retry). R6: the crate's own caller (CLI) hands the library the created File itself, not a deferring adaptor.",
+          " The sink call itself runs once per helper invocation (not on a CFG cycle) and its Result is returned / `?`-propagated unseen (no retry).",
   "note": "Relies on std's documented write_all contract for Interrupted/short writes. Panic-freedom of the finalize path is the C12 obligation set restricted to the writer tree (known findings shared by key)."},
  "C17": {
   "technique": "whole-program effect analysis over the resolved call graph + trait-solver auto-trait query + MIR alpha-equivalence / delegation check",
@@ -67,7 +67,7 @@ CLAIMS = {
   "note": "R6 (u32 cursor overflow guard missing in the standard layout) is reported under C16."},
  "C15": {
   "technique": "layout interpretation: the sample region as a sort-permutation of the two queues; key shape analysis",
-  "text": "The sample region of every A/V layout is sorted(key)[video queue ++ audio queue] with key = (timestamp field, rank Video<Audio, queue index): by std's sort_by_key contract this is the merge by timestamp with video first on ties; the same schedule drives offsets and streaming; per-track order is queue order. R4: both tracks' sort keys come from the one tick conversion of the call's own timestamp (C03.R1 instances).",
+  "text": "The sample region of every A/V layout is sorted(key)[video queue ++ audio queue] with key = (timestamp field, rank Video<Audio, queue index): by std's sort_by_key contract this is the merge by timestamp with video first on ties; the same schedule drives offsets and streaming; per-track order is queue order. R4: both tracks' sort keys come from the same stateless conversion of the call's own timestamp.",
   "note": "Relies on the documented contract of slice::sort_by_key (stable, ordered by key)."},
  "C03": {
   "technique": "data-dependence slices on MIR + symbolic moov production (durations / composition offsets)",
@@ -93,7 +93,7 @@ CLAIMS = {
  "C09": {
   "technique": "layout interpretation: enumeration of the audio trak production for a track-start offset mechanism",
   "text": "Necessary condition only: a track timeline built from stts starts at 0, so preserving an A/V start offset needs an edit list (or a field depending on both first timestamps) in the audio trak. The rule enumerates the audio trak production of every A/V layout; on the pinned tree no mechanism exists: a genuine defect, recorded as a known finding (not small to repair). R2: no drift - run-length tables merge only exactly equal deltas (shared with C03.R6)."
-          " R1 also: an edit list must depend on the video track's first timestamp. R2 also: stts deltas are the elements' own durations. R3: both tracks use the one stateless tick conversion (C03.R1 instances). R4: the video ctts holds pts - dts and is present whenever an offset is non-zero (C03.R5 instances).",
+          " R1 also: an edit list must depend on the video track's first timestamp. R2 also: stts deltas are the elements' own durations. R3: every entry point converts its own timestamp with the same stateless function. R4: the video ctts holds pts - dts and is present whenever an offset is non-zero (C03.R5 instances).",
   "note": "Decides that the property cannot hold in general while the mechanism is absent; when one appears, presence and data dependence are checked, not its +-1 tick arithmetic (value-level)."},
  "C12": {
   "technique": "whole-library panic/termination obligation inventory on MIR (overflow checks on) discharged by dominating-guard entailment (Fourier-Motzkin over guards, asserts, loop-header invariants, caller-established parameter facts, callee postconditions), finite-domain evaluation of extracted expressions, and named lemmas with machine-checked side conditions",
@@ -111,14 +111,14 @@ CLAIMS = {
           "(constants, bit masks, field intervals of crate-built structs, callee postconditions, constant widths of byte producers, exact lengths of straight-line-built descriptors, guards whose other arm returns an error; record counts under A1; "
           "queued sample sizes by the guard at every push) or is reported. On the current tree 106 are discharged and 53 are genuine unguarded truncations listed as known findings with boundary-crossing inputs (durations, composition offsets, "
           "parameter-set lengths, dimensions, sample rate, channel count, box/fragment sizes, f64 tick saturation). A new unguarded narrowing, a weakened or removed range guard, or a narrowed intermediate is a violation."
-          " R4: the run-length duration/offset tables carry every per-sample value exactly (no clamping, merging only on equality).",
+          " R4: the run-length duration/offset tables carry every per-sample value exactly (no clamping, merging only on equality). R5: the fragment's 64-bit base decode time holds the own first sample's decode time (minus a write-once constant at most), not an estimate or clamp.",
   "note": "Decides that no conversion loses bits silently; does not decide that the wide value is the mathematically right one (C01-C03, C08 own the formulas). A cast protected only by the always-on invariant macro (panic) stays listed. "
           "Clamping conversions (try_from(..).unwrap_or / min) are not inventoried. Assumptions: 64-bit usize; A1 fewer than 2^32-1 records per table."},
  "C11": {
   "technique": "layout interpretation of the media-segment and init-segment builders + MIR slices in flush_segment",
   "text": "trun per-sample fields have the required operator shape (duration = next.dts - this.dts, cts = pts - dts signed, flags constants with the non-sync bit exactly on the non-sync arm, size = len(data)); tfdt/trun are version 1; the base decode time handed to the builder depends on the segment's own samples (defect found and repaired: it was estimated from the previous segment); "
           "the init segment is built from the construct-time config only, the config has no writer after construction, and the cache is consulted first. R5: queued samples are immutable between write and segment building (flags/times written are the submitted ones)."
-          " R5 also: the queued record's fields are the call's own parameters unmodified (sync flag, pts, dts). R2 also: the base decode time is the own first DTS, or that minus a write-once state field in exact arithmetic (saturating only when the subtrahend is a decode time).",
+          " R5 also: the queued record's fields are the call's own parameters unmodified (sync flag, pts, dts). R2 also: the base decode time is the own first DTS, or that minus a write-once state field in exact arithmetic (saturating only when the subtrahend is a decode time); clamps against another value are recorded as not decided.",
   "note": "Not decided: numeric monotonicity of base times and the 3000-tick default of a lone sample."},
  "C14": {
   "technique": "layout interpretation of the converters + exhaustive evaluation of the *extracted* ADTS bit-field formulas + MIR guard extraction",
@@ -130,7 +130,7 @@ CLAIMS = {
   "technique": "layout interpretation: user-data production vs iTunes metadata layout; non-interference of the metadata parameter over the whole moov production",
   "text": "udta is emitted iff the item list is non-empty and has the layout udta>meta(0)>hdlr(mdir)+ilst>items with data(type 1, locale 0) followed by the title's bytes verbatim; the `metadata` parameter occurs nowhere in the moov production except under udta and in the mdhd language field; both mdhd language fields derive from metadata.language with the `und` default. R4: the (year, month, day) expressions extracted from the creation-date conversion equal the proleptic Gregorian calendar on every day of 400-year eras (exhaustive evaluation of the extracted expressions; year affine in the era). R5: single-attribute metadata setters update in place; only with_metadata(Metadata) replaces."
           " R6: both language encoders evaluated on all 26^3 codes against the ISO formula. R4 also: day count = secs/86400 and the hour/minute/second expressions evaluated for all 86400 seconds of a day."
-          " R5 also: attribute setters store the parameter itself, not rewritten in place; R3 also: the string handed to the language packing is metadata.language or `und` through Option plumbing only. R7: the CLI never replaces the metadata wholesale after setting part of it (C20.R2 ordering instances).",
+          " R5 also: attribute setters store the parameter itself, not rewritten in place; R3 also: the string handed to the language packing is metadata.language or `und` through Option plumbing only.",
   "note": "Not decided: the calendar conversion and the 5-bit language packing as arithmetic functions; termination for huge creation times is C12."},
  "C20": {
   "technique": "MIR rules on the bin crate: single-consumer flow of the output File, argument slices, dominance by the Ok edge of finish, store inventory of the verdict flag, loop-variant guard extraction",
